@@ -616,6 +616,7 @@ def verify_site(live, mm: MetaModel, world: World, sources: HookSources, decl_by
     res.obligations = obs
     res.static_failures = checker.static
     res.extra["paths"] = [(i, describe_reading(r) if r is not None else f"raise {out[1]}") for i, p, out, r in path_infos]
+    res.extra["paths_full"] = [(list(p.pc), out, r) for i, p, out, r in path_infos]
     return res
 
 
